@@ -52,6 +52,25 @@ def posc_info():
     return info
 
 
+def legacy_spellings(info):
+    """[(legacy spelling, current unit, quantity type)] for every table unit that has one; each
+    spelling is kept only if rewriting it (model.current_spelling) gives back the table unit."""
+    if "legacy" in _INFO:
+        return _INFO["legacy"]
+    from .model import LEGACY_TO_CURRENT, current_spelling
+
+    out = []
+    for qt in sorted(info):
+        for un in info[qt]["units"]:
+            for legacy, current in LEGACY_TO_CURRENT:
+                if current in un:
+                    cand = un.replace(current, legacy, 1)
+                    if cand != un and current_spelling(cand) == un and cand not in info[qt]["units"]:
+                        out.append((cand, un, qt))
+    _INFO["legacy"] = sorted(set(out))
+    return _INFO["legacy"]
+
+
 def simple_info():
     return {
         "length": {"units": ["m", "mm", "cm", "km"], "cats": ["length"]},
